@@ -521,6 +521,15 @@ fn run_in(case: &C11Case, exec: &mut Exec) -> Result<CaseInfo, Fail> {
             labels.push(name.to_string());
         }
     }
+    // the same options once more as a following GET / on the now quiescent store (limit against
+    // heartbeats and live frames over HTTP, NDJSON or SSE)
+    let mut http_checks = 0;
+    if case.lag.is_none() && following && opts.limit.is_some() {
+        let sse = case.live.len() % 2 == 1;
+        http_checks = super::httpfollow::check(exec, &opts, sse, scope.unwrap_or(ZERO))?;
+        labels.push(format!("http-follow-limit-{}", if sse { "sse" } else { "ndjson" }));
+    }
+    let _ = http_checks;
     Ok(CaseInfo {
         nontrivial: h_eq_n || split || labels.iter().any(|l| l == "follower-lagged-out"),
         shape: hash64(
